@@ -22,7 +22,9 @@ def bounds(tier):
     q = tier == "quick"
     return {"dense": f"values 0..6, 1..{8 if q else 10} items, every bound 1..n and default",
             "spread": f"alphabets fibonacci (1,2,3,5,8,13,21) and powers of two, 1..{6 if q else 8} items",
-            "dict": "values 0..4, 1..5 items, dict with string names"}
+            "dict": "values 0..4, 1..5 items, dict with string names",
+            "long-thin": f"9..{15 if q else 24} items over {{1,2}}, 9..{12 if q else 16} over {{1,2,3}}, 9..{11 if q else 13} over {{0,1,5}} and {{2,3,7}}, every bound 1..n and default, non-sorted presentation",
+            "big": f"values {{0, 1, 2**24+1, 2**31+1, 2**32+3, 2**40+5}}, 1..{6 if q else 7} items, every bound"}
 
 
 def tasks(tier):
@@ -35,6 +37,11 @@ def tasks(tier):
             ts.append(("spread", ch, "list"))
     for ch in scopes.chunk_multisets(range(0, 5), 1, 5, 100):
         ts.append(("dict", ch, "dict_str"))
+    # many items over tiny alphabets (reachable (cardinality, sum) pairs stay few: the oracle is polynomial) and big magnitudes
+    for ch in spaces.chunked(scopes.long_thin_multisets(tier), 10):
+        ts.append(("long-thin", ch, "list"))
+    for ch in scopes.chunk_multisets(scopes.BIG_VALUES, 1, 6 if q else 7, 60):
+        ts.append(("big", ch, "list"))
     return ts
 
 
@@ -68,6 +75,8 @@ def run_task(task):
     acc = Acc(ID, scope)
     for ms in chunk:
         free = O.opt_two_way(tuple(ms), None)
+        if scope == "long-thin":
+            ms = scopes.scramble(ms)
         for d in [None] + list(range(1, len(ms) + 1)):
             acc.point(nontrivial=(d is not None and O.opt_two_way(tuple(ms), d) != free))
             _judge(acc, ms, d, fmt)
